@@ -86,8 +86,6 @@ def run_exhaustive(spec, out, nontrivial):
             counts['steps'] += 1
             try:
                 w2.step(op)
-            except RecursionError:
-                raise
             except Exception as e:
                 from .viol import innermost_dd_frame
                 if not isinstance(e, Violation) and \
